@@ -148,6 +148,23 @@ Proof.
   destruct src as [a|]; [|reflexivity]. rewrite set_contains_exact by auto. reflexivity.
 Qed.
 
+Lemma acl_config_exact n_entries ps internal src :
+  Forall (fun p => prefix_ok p = true) ps -> (forall a, src = Some a -> addr_ok a) ->
+  acl_serve (new_set (acl_effective n_entries ps)) internal src =
+  if internal || match src with Some a => spec_contains (acl_effective n_entries ps) a | None => false end then AclNext else AclDrop.
+Proof.
+  intros Hps Ha. apply acl_exact; [|exact Ha]. unfold acl_effective. destruct (n_entries =? 0); [|exact Hps].
+  repeat constructor.
+Qed.
+
+Lemma all_malformed_denies n_entries src :
+  n_entries <> 0 -> acl_serve (new_set (acl_effective n_entries [])) false src = AclDrop.
+Proof.
+  intros Hn. unfold acl_effective. destruct (N.eqb_spec n_entries 0) as [E|E]; [contradiction|].
+  unfold acl_serve. destruct src as [a|]; [|reflexivity]. unfold set_contains, new_set; cbn.
+  destruct (a_is4 (unmap a)); reflexivity.
+Qed.
+
 (* ---------------- views: first matching view in declaration order *)
 Theorem first_view_spec views a : forall i0,
   Forall (Forall (fun p => prefix_ok p = true)) views -> addr_ok a ->
